@@ -272,7 +272,10 @@ func sweep(entries []common.Entry) {
 				r.s.SetContent(0, 0, rr, nil, tcell.StyleDefault)
 				r.s.SetContent(1, 0, ' ', nil, tcell.StyleDefault)
 				isMark := wd == 0 && rr >= 0xa0 // combining lists are limited to zero-width non-control marks
-				if isMark {
+				// ... and runes the charset cannot represent: as combining content they are
+				// elided, whatever else was drawn with the same rune before
+				elided := !isMark && rr >= 0xa0 && !encodable(r.enc, rr)
+				if isMark || elided {
 					r.s.SetContent(3, 0, 'a', []rune{rr}, tcell.StyleDefault)
 				} else {
 					r.s.SetContent(3, 0, 'a', nil, tcell.StyleDefault)
